@@ -6,9 +6,143 @@ import (
 	"fmt"
 	"strconv"
 	"strings"
+	"sync"
+	"time"
 
+	orderPeerMgr "github.com/meshplus/bitxhub-core/peer-mgr"
+	"github.com/meshplus/bitxhub-kit/types"
+	"github.com/meshplus/bitxhub-model/pb"
 	"github.com/meshplus/bitxhub/pkg/order/syncer"
 )
+
+// fakePeers answers GET_BLOCKS / GET_BLOCK_HEADERS out of a synthetic hash-linked chain.  Peer `bad` (0: none) fails its
+// first `failN` requests; every request that was answered is recorded.
+type fakePeers struct {
+	orderPeerMgr.OrderPeerManager
+	mu     sync.Mutex
+	chain  map[uint64]*pb.Block
+	bad    uint64
+	failN  int
+	served [][2]uint64
+}
+
+func (f *fakePeers) Send(id orderPeerMgr.KeyType, m *pb.Message) (*pb.Message, error) {
+	f.mu.Lock()
+	defer f.mu.Unlock()
+	if pid, ok := id.(uint64); ok && pid == f.bad && f.failN > 0 {
+		f.failN--
+		return nil, fmt.Errorf("peer %d unreachable", pid)
+	}
+	switch m.Type {
+	case pb.Message_GET_BLOCKS:
+		req := &pb.GetBlocksRequest{}
+		if err := req.Unmarshal(m.Data); err != nil {
+			return nil, err
+		}
+		res := &pb.GetBlocksResponse{}
+		for h := req.Start; h <= req.End; h++ {
+			if b, ok := f.chain[h]; ok {
+				res.Blocks = append(res.Blocks, b)
+			}
+		}
+		f.served = append(f.served, [2]uint64{req.Start, req.End})
+		data, _ := res.Marshal()
+		return &pb.Message{Type: pb.Message_GET_BLOCKS_ACK, Data: data}, nil
+	case pb.Message_GET_BLOCK_HEADERS:
+		req := &pb.GetBlockHeadersRequest{}
+		if err := req.Unmarshal(m.Data); err != nil {
+			return nil, err
+		}
+		res := &pb.GetBlockHeadersResponse{}
+		for h := req.Start; h <= req.End; h++ {
+			if b, ok := f.chain[h]; ok {
+				res.BlockHeaders = append(res.BlockHeaders, b.BlockHeader)
+			}
+		}
+		data, _ := res.Marshal()
+		return &pb.Message{Type: pb.Message_GET_BLOCK_HEADERS_ACK, Data: data}, nil
+	}
+	return nil, fmt.Errorf("unexpected message")
+}
+
+func mkChain(upto uint64) (map[uint64]*pb.Block, *types.Hash) {
+	chain := map[uint64]*pb.Block{}
+	parent := types.NewHashByStr("0x0000000000000000000000000000000000000000000000000000000000000000")
+	var genesis *types.Hash
+	for h := uint64(1); h <= upto; h++ {
+		b := &pb.Block{BlockHeader: &pb.BlockHeader{Number: h, ParentHash: parent, Version: []byte("1.0.0"), Timestamp: int64(1000 + h)},
+			Transactions: &pb.Transactions{}}
+		b.BlockHash = b.Hash()
+		chain[h] = b
+		parent = b.BlockHash
+		if h == 1 {
+			genesis = b.BlockHash
+		}
+	}
+	_ = genesis
+	return chain, parent
+}
+
+// runSync: SyncCFTBlocks / SyncBFTBlocks of the real syncer over the fake peers; the delivered block numbers (to the nil
+// that ends the stream) and the answered block requests, in order
+func runSync(bft bool, begin, end, fetch, bad uint64, failN int) string {
+	if end > 4000 || begin == 0 {
+		return "bad-op"
+	}
+	chain, _ := mkChain(end + 2)
+	fp := &fakePeers{chain: chain, bad: bad, failN: failN}
+	s, err := syncer.New(fetch, fp, 2, []uint64{1, 2, 3}, quietLogger)
+	if err != nil {
+		return "err new"
+	}
+	ch := make(chan *pb.Block, 8192)
+	done := make(chan error, 1)
+	go func() {
+		if bft {
+			var parent *types.Hash
+			if begin > 1 {
+				parent = chain[begin-1].BlockHash
+			} else {
+				parent = chain[1].BlockHeader.ParentHash
+			}
+			done <- s.SyncBFTBlocks(begin, end, parent, ch)
+		} else {
+			done <- s.SyncCFTBlocks(begin, end, ch)
+		}
+	}()
+	select {
+	case err := <-done:
+		if err != nil {
+			return "err"
+		}
+	case <-time.After(20 * time.Second):
+		return "HANG"
+	}
+	var got []string
+	closed := false
+loop:
+	for {
+		select {
+		case b := <-ch:
+			if b == nil {
+				closed = true
+				break loop
+			}
+			got = append(got, fmt.Sprint(b.BlockHeader.Number))
+		default:
+			break loop
+		}
+	}
+	var reqs []string
+	for _, r := range fp.served {
+		reqs = append(reqs, fmt.Sprintf("%d-%d", r[0], r[1]))
+	}
+	tail := "end"
+	if !closed {
+		tail = "no-end-marker"
+	}
+	return "blocks=[" + strings.Join(got, " ") + "] " + tail + " requests=[" + strings.Join(reqs, " ") + "]"
+}
 
 type syncEngine struct{}
 
@@ -18,6 +152,23 @@ func (e *syncEngine) close() {}
 
 func (e *syncEngine) step(ws []string) string {
 	switch ws[0] {
+	case "cft", "bft": // cft <begin> <end> <fetch> [<bad peer> <failures>] : the real SyncCFTBlocks / SyncBFTBlocks over fake peers
+		if len(ws) != 4 && len(ws) != 6 {
+			return "bad-op"
+		}
+		b, e1 := strconv.ParseUint(ws[1], 10, 64)
+		en, e2 := strconv.ParseUint(ws[2], 10, 64)
+		f, e3 := strconv.ParseUint(ws[3], 10, 64)
+		if e1 != nil || e2 != nil || e3 != nil {
+			return "bad-op"
+		}
+		var bad uint64
+		failN := 0
+		if len(ws) == 6 {
+			bad, _ = strconv.ParseUint(ws[4], 10, 64)
+			failN, _ = strconv.Atoi(ws[5])
+		}
+		return runSync(ws[0] == "bft", b, en, f, bad, failN)
 	case "ranges":
 		if len(ws) != 4 {
 			return "bad-op"
